@@ -460,6 +460,9 @@ def misc_configs(tier):
     for ri in range(3):
         for what in ("pad", "ufunc"):
             cfgs.append(("unlinked", ri, what))
+    for k in (2, 3):
+        for q in ("get_metric", "integrate"):
+            cfgs.append(("setm", k, q))
     return cfgs
 
 
@@ -501,6 +504,23 @@ def run_misc(cfg):
             r = getattr(g, op)(da, "X")
             outs += [tuple(r.dims), np.asarray(r.values, dtype=float)]
         return digest(*outs)
+    if cfg[0] == "setm":
+        # several metrics added in one call to an axis set that already has one; then a request at a position none of
+        # them sits at (answered by interpolating a registered one)
+        _, k, q = cfg
+        n = 3
+        ds = xr.Dataset(coords={"xc": ("xc", np.arange(n) + 0.5), "xl": ("xl", np.arange(n) * 1.0), "xo": ("xo", np.arange(n + 1) * 1.0),
+                                "xr": ("xr", np.arange(n) + 1.0), "xi": ("xi", np.arange(n - 1) + 1.0)})
+        ds["m_l"] = ("xl", [2.0, 3.0, 5.0])
+        ds["m_o"] = ("xo", [7.0, 11.0, 13.0, 17.0])
+        ds["m_r"] = ("xr", [19.0, 23.0, 29.0])
+        ds["m_i"] = ("xi", [31.0, 37.0])
+        g = Grid(ds, coords={"X": {"center": "xc", "left": "xl", "outer": "xo", "right": "xr", "inner": "xi"}}, periodic=False, boundary="extend",
+                 autoparse_metadata=False, metrics={("X",): ["m_i"]})
+        g.set_metrics(("X",), ["m_l", "m_o", "m_r"][:k])
+        da = xr.DataArray(np.arange(n, dtype=float) + 1, dims=["xc"])
+        r = g.get_metric(da, ("X",)) if q == "get_metric" else g.integrate(da, "X")
+        return digest(tuple(r.dims), r.values)
     if cfg[0] == "unlinked":
         # two tiles joined along X; the grid has two more axes (Y, Z) that no link mentions: a halo requested along both
         # of them at once, with per-axis rules and fill values
@@ -548,7 +568,7 @@ def run_misc(cfg):
     return digest(tuple(r.dims), r.values)
 
 
-DRIVERS = {"pad": run_pad, "equiv": run_equiv, "comodo": run_parse, "sgrid": run_parse, "metric": run_metric, "simple": run_simple, "table": run_table, "ufunc": run_ufunc, "move": run_move, "defaults": run_misc, "strip": run_misc, "unlinked": run_misc}
+DRIVERS = {"pad": run_pad, "equiv": run_equiv, "comodo": run_parse, "sgrid": run_parse, "metric": run_metric, "simple": run_simple, "table": run_table, "ufunc": run_ufunc, "move": run_move, "defaults": run_misc, "strip": run_misc, "unlinked": run_misc, "setm": run_misc}
 
 
 def all_configs(tier):
